@@ -219,7 +219,7 @@ func promotedIndex(before, after *portalwire.VerifSnapshot) int {
 }
 
 func runTable(o *Out, r *rand.Rand, thorough bool, _ []string) {
-	nSeq, nOps := 14, 420
+	nSeq, nOps := shorter(14, thorough), 420
 	if thorough {
 		nSeq, nOps = 200, 500
 	}
